@@ -26,7 +26,7 @@ COMPONENTS = {"real": ["smpl_extract (actions, roland/s7xx/*, util/*, structural
                        "output: real files in a /dev/shm sandbox behind an audit hook"]}
 ASSUMPTIONS = ["exact arm: names are safe words, unique per directory, no L/R pairs, and no sample is reached through two patches of one performance (the statement does not fix whether it then appears once or twice)",
                "loop points satisfy start <= selected end < number of words"]
-EXPECTED_PROBES = ["chain_permuted", "cluster_top", "reverse_mode", "exact_fill", "orphan_volume", "no_volume", "fat_v2",
+EXPECTED_PROBES = ["exported_twice", "chain_permuted", "cluster_top", "reverse_mode", "exact_fill", "orphan_volume", "no_volume", "fat_v2",
                    "shared_sample", "shared_chain", "release_end_mode", "knob_not_default", "cli_crosscheck"]
 SHRINK = {"max_attempts": 120, "max_seconds": 90.0, "simple_values": {"policy": ["contiguous"], "block": [4096], "cluster_top": [0]}}
 KNOBS = [2, 64, 510, 4096, 4096, 4096, 8192, 65536]
@@ -38,7 +38,7 @@ def gen(rng: random.Random, tier: str, index: int) -> dict:
     b = rng.choice(KNOBS)
     if b < 64 and sum(s["n"] for s in model["samples"]) > 4000:
         b = 510
-    return {"model": model, "block": b, "cli": index % CLI_EVERY == 3}
+    return {"model": model, "block": b, "cli": index % CLI_EVERY == 3, "twice": index % 3 == 1}
 
 
 def run(sc: dict) -> RunResult:
@@ -98,6 +98,13 @@ def run(sc: dict) -> RunResult:
             if er.budget:
                 res.add(PROP, "no_result", "export exceeded the step budget of %d" % budget)
             check_export(res, PROP, exp, er)
+            if sc.get("twice") and not res.violations:
+                # the same opened image exported once more yields the same files
+                res.probes["exported_twice"] += 1
+                er_b = tool.run_export(image, sb, "again")
+                if er_b.budget:
+                    res.add(PROP, "no_result", "second export exceeded the step budget of %d" % budget)
+                check_export(res, PROP, exp, er_b, ctx="[second export of the same image] ")
             if er.escapes:
                 res.add(PROP, "write_outside_destination", repr(er.escapes[:3]))
     if sf.writes:
